@@ -268,9 +268,9 @@ def _pwl_layer(cfg):
   if miss:
     kw['impute_missing'] = True
     if miss in ('value', 'value_fixed'):
-      kw['missing_input_value'] = -7.5
+      kw['missing_input_value'] = cfg.get('miss_in', -7.5)
     if miss.endswith('fixed'):
-      kw['missing_output_value'] = 0.75
+      kw['missing_output_value'] = cfg.get('miss_out', 0.75)
 
   def provider(layer, name, shape, dt, init, cons):
     return K if 'kernel' in name else M
@@ -600,6 +600,13 @@ def configs(tier, rng):
                 cfg = dict(nk=nk, kpset=kpset, units=units, cyclic=cyclic, split=split,
                            in_cols=in_cols, missing=missing, batch=1 if units > 1 else 2)
                 jobs.append(('pwl_call', cfg))
+          if not cyclic and nk == 3:
+            # falsy zeros as missing input / output values
+            for in_cols in sorted({1, units}):
+              jobs.append(('pwl_call', dict(nk=nk, kpset=kpset, units=units, cyclic=False, split=False, in_cols=in_cols,
+                                            missing='value_fixed', miss_in=0.0, miss_out=0.0, batch=1 if units > 1 else 2)))
+              jobs.append(('pwl_call', dict(nk=nk, kpset=kpset, units=units, cyclic=False, split=False, in_cols=in_cols,
+                                            missing='value', miss_in=0.0, batch=1 if units > 1 else 2)))
           jobs.append(('kpo', dict(nk=nk, kpset=kpset, units=units, cyclic=cyclic)))
           jobs.append(('kpi', dict(nk=nk, kpset=kpset, units=units, cyclic=cyclic)))
       for d in (1, -1):
@@ -620,7 +627,7 @@ def configs(tier, rng):
   for nb in ((2, 3) if tier == 'quick' else (2, 3, 5)):
     for units in (1, 2):
       for split in ((False, True) if units > 1 else (False,)):
-        for default in (None, -1, 7):
+        for default in (None, -1, 7, 0):   # 0: a falsy default value must still be replaced
           for in_cols in sorted({1, units}):
             ids = list(range(nb)) + ([default] if default is not None else [])
             x = [[ids[(r + cidx) % len(ids)] for cidx in range(in_cols)] for r in range(len(ids))]
